@@ -20,7 +20,9 @@ ASSUMPTIONS = [
     'differential oracle: the single-instantiation output is the reference for every larger list',
 ]
 
-CONC = [T('double'), T('ns::Pose'), T('Cam', t=[T('ns::Cal')]), T('size_t')]
+CONC = [T('double'), T('ns::Pose'), T('Cam', t=[T('ns::Cal')]), T('size_t'),
+        # (index 4, 5: used by the typedef variants only) two types that differ in their namespace only
+        T('left::Sample'), T('right::Sample')]
 UCONC = [T('int'), T('ns::Rot')]
 
 
@@ -45,6 +47,7 @@ def decl_variants(P='T', U='U'):
             D.method(single(T('void')), 'setMode', [arg(T('This::Mode', 1, '&'), 'm')]),
             D.method(single(T('gt::This::Mode')), 'getMode', [], 1),
             D.prop(T('gt::This::Mode'), 'mode'),
+            D.dunder('len'), D.dunder('contains', [arg(T(p0, 1, '&'), 'key')]), D.dunder('iter'),
         ]
     out = {}
     out['class1'] = ([P], lambda insts: [D.ns('gt', [D.enum('Before', ['A']),
@@ -65,18 +68,29 @@ def decl_variants(P='T', U='U'):
         D.method(single(T(U)), 'conv', [arg(T(P, 1, '&'), 'a'), arg(T(V, t=[T(U)]), 'b')], tpl=[D.tparam(U, UCONC)]),
         D.static(single(T(P)), 'make', [arg(T(U, 1, '&'), 'u')], tpl=[D.tparam(U, UCONC)]),
         D.ctor('Foo', [arg(T(U), 'u'), arg(T(P), 'a')], tpl=[D.tparam(U, UCONC)]),
+        D.method(single(T('W2')), 'pick', [arg(T(U, 1, '&'), 'u'), arg(T('W2'), 'w')], tpl=[D.tparam(U, UCONC), D.tparam('W2', [T('string')])]),
+        D.method(single(T(U)), 'after', [arg(T(U, 1, '&'), 'u')], tpl=[D.tparam(U, [T('double')])]),
+        D.static(single(T('W2')), 'spick', [arg(T(U), 'u'), arg(T('W2', 1, '&'), 'w')], tpl=[D.tparam(U, UCONC), D.tparam('W2', [T('string')])]),
+        D.static(single(T(U)), 'safter', [arg(T(U), 'u')], tpl=[D.tparam(U, [T('double')])]),
     ], tpl=[D.tparam(P, insts[0])])])])
     # typedef'd instantiations: one typedef per selected argument, of a foreign (forward-declared) template, of a class
     # template without list, and of a function template without list
-    out['fwdtd'] = ([P], lambda insts: [D.ns('gt', [D.fwd('Ext')] + [D.typedef(T('gt::Ext', t=[x]), 'Ext' + cap(iname(x))) for x in insts[0]] +
+    out['fwdtd'] = ([P], lambda insts: [D.ns('gt', [D.fwd('Ext')] + [D.typedef(T('gt::Ext', t=[x]), tdname('Ext', x)) for x in insts[0]] +
                                                      [D.cls('Plain', [D.ctor('Plain')])])])
     out['classtd'] = ([P], lambda insts: [D.ns('gt', [D.cls('Box', [D.ctor('Box', [arg(T(P, 1, '&'), 'a')]), D.method(single(T(P)), 'get', [], 1),
                                                                      D.method(single(T(P + '::Value')), 'scoped', [arg(T(V, 1, '&', [T(P)]), 'vals')]),
                                                                      D.static(single(T('This')), 'Create', [])], tpl=[D.tparam(P)])] +
-                                                       [D.typedef(T('gt::Box', t=[x]), 'Box' + cap(iname(x))) for x in insts[0]])])
+                                                       [D.typedef(T('gt::Box', t=[x]), tdname('Box', x)) for x in insts[0]])])
     out['functd'] = ([P], lambda insts: [D.ns('gt', [D.func(single(T(P)), 'mk', [arg(T(P, 1, '&'), 'a'), arg(T(V, t=[T(P)]), 'b')], tpl=[D.tparam(P)])] +
-                                                      [D.typedef(T('gt::mk', t=[x]), 'mk' + cap(iname(x))) for x in insts[0]])])
+                                                      [D.typedef(T('gt::mk', t=[x]), tdname('mk', x)) for x in insts[0]])])
     return out
+
+
+ALIAS = {'left::Sample': 'SampleL', 'right::Sample': 'SampleR'}
+
+
+def tdname(base, x):
+    return base + (ALIAS.get(D.cpp(x)) or cap(iname(x)))
 
 
 def cap(n):
@@ -158,6 +172,9 @@ def pool(i):
     return CONC if i == 0 else UCONC
 
 
+TD_VARIANTS = ('fwdtd', 'classtd', 'functd')
+
+
 def check_select(case):
     """case: variant, sel = list (per parameter) of index lists into the pools."""
     variant, sel = case['variant'], case['sel']
@@ -174,7 +191,10 @@ def check_select(case):
             'functd': 'mk'}[variant]
     ncmp = 0
     for combo in itertools.product(*sel):
-        name = base + ''.join(cap(iname(pool(i)[j])) for i, j in enumerate(combo))
+        if variant in TD_VARIANTS:
+            name = tdname(base, pool(0)[combo[0]])
+        else:
+            name = base + ''.join(cap(iname(pool(i)[j])) for i, j in enumerate(combo))
         ref = relevant(alone(variant, combo), [name])
         got = relevant(blocks, [name])
         if not ref:
@@ -275,6 +295,9 @@ def run(ctx):
             else:
                 for us in ([0], [0, 1], [1, 0]):
                     cases.append({'mode': 'select', 'variant': variant, 'sel': [s, us]})
+    for variant in TD_VARIANTS:
+        for s_ in ([4], [5], [4, 5], [5, 4], [1, 4, 5], [5, 0, 4]):
+            cases.append({'mode': 'select', 'variant': variant, 'sel': [s_]})
     res = ctx.map(check_select, cases)
     ncmp = sum(r.get('ncmp', 0) for _, r in res)
     rcases = []
